@@ -445,7 +445,12 @@ func drive(p *Property, tier string, seed int64, replayPath string) int {
 	exit := 0
 	nviol := 0
 	knownSeen := []string{}
-	_ = os.MkdirAll(filepath.Join(vd, "replay"), 0o755)
+	replayDir := filepath.Join(vd, "replay")
+	evidenceDir := filepath.Join(vd, "evidence")
+	if d := os.Getenv("VERIF_OUT_DIR"); d != "" { // selftest runs: keep /verif/evidence for /repo only
+		replayDir, evidenceDir = filepath.Join(d, "replay"), filepath.Join(d, "evidence")
+	}
+	_ = os.MkdirAll(replayDir, 0o755)
 	for _, k := range vkeys {
 		v := a.viols[k]
 		if fd, ok := known[k]; ok {
@@ -454,7 +459,7 @@ func drive(p *Property, tier string, seed int64, replayPath string) int {
 			continue
 		}
 		nviol++
-		rp := filepath.Join(vd, "replay", fmt.Sprintf("%s-%016x.json", p.ID, hashString(k)))
+		rp := filepath.Join(replayDir, fmt.Sprintf("%s-%016x.json", p.ID, hashString(k)))
 		b, _ := json.MarshalIndent(map[string]any{"property": p.ID, "tier": tier, "seed": seed, "index": v.Index, "key": k, "count": v.Count, "witness": v.Witness}, "", " ")
 		_ = os.WriteFile(rp, b, 0o644)
 		fmt.Printf("VIOLATION property=%s replay=%s\n", p.ID, rp)
@@ -525,8 +530,8 @@ func drive(p *Property, tier string, seed int64, replayPath string) int {
 			"wall_s": time.Since(start).Seconds(), "violations": nviol,
 		}
 		b, _ := json.MarshalIndent(evd, "", " ")
-		_ = os.MkdirAll(filepath.Join(vd, "evidence"), 0o755)
-		ep := filepath.Join(vd, "evidence", p.ID+".json")
+		_ = os.MkdirAll(evidenceDir, 0o755)
+		ep := filepath.Join(evidenceDir, p.ID+".json")
 		if err := os.WriteFile(ep+".tmp", b, 0o644); err == nil {
 			_ = os.Rename(ep+".tmp", ep)
 		}
